@@ -109,6 +109,7 @@ class C12(core.Check):
     def run_world(self, case):
         text = progs.render_body(case["nodes"])
         w = world.World(inputs=case["inputs"])
+        w.ctx.dictionary_compression = False  # raw strings: code handed to Ė must not be dictionary-decompressed
         log, cov, faults = [dict(program=text)], set(), {}
         try:
             structs = w.parse(text)
@@ -123,6 +124,7 @@ class C12(core.Check):
         steps = 0
         printed_lazy = [False]
         swallowed = [0]
+        swallowed_by = [None]
 
         def check(where, what):
             d = w.depths()
@@ -137,7 +139,7 @@ class C12(core.Check):
                 if swallowed[0]:
                     # an exception left a lambda / function body and was then swallowed (e.g. by list()'s
                     # length-hint protocol): a different mechanism from a template that forgets its pops
-                    sig = f"depth:{which}:swallowed-exception"
+                    sig = f"depth:{which}:swallowed-exception:by={swallowed_by[0] or 'C-level'}"
                 else:
                     sig = f"depth:{which}:{where}:{','.join(exits) or '-'}" + (":printed-lazy" if printed_lazy[0] else "")
                 log.append(dict(violation=sig, depths=list(d), base=list(base)))
@@ -165,6 +167,8 @@ class C12(core.Check):
             finally:
                 steps += world.CLOCK.stop()
                 swallowed[0] += world.CLOCK.unwinds
+                if world.CLOCK.unwinds and swallowed_by[0] is None:
+                    swallowed_by[0] = world.CLOCK.swallowed_by
 
         def do_sched(upto):
             while sched and sched[0][0] <= upto:
@@ -264,7 +268,7 @@ class C12(core.Check):
         outcome = None
         try:
             with world.rec_limit():
-                main.execute_vyxal(text, "e", [str(x) for x in case["inputs"]])
+                main.execute_vyxal(text, "eD", [str(x) for x in case["inputs"]])
         except world.StepBudgetExceeded:
             outcome = "budget"
         except world.ValueTooBig:
@@ -278,6 +282,7 @@ class C12(core.Check):
         finally:
             steps = world.CLOCK.stop()
             unw = world.CLOCK.unwinds
+            unw_by = world.CLOCK.swallowed_by
             sys.stdout = old_out
             main.Context = old_ctx
         log.append(dict(ev="execute_vyxal", outcome=outcome or "ok"))
@@ -291,7 +296,7 @@ class C12(core.Check):
             delta = tuple(a - b for a, b in zip(d, base))
             names = ("cv", "in", "st", "fs")
             which = "".join(("+" if x > 0 else "-") + nm for x, nm in zip(delta, names) if x) or "top-context"
-            sig = f"depth:{which}:main:{','.join(exits) or '-'}" if not unw else f"depth:{which}:swallowed-exception"
+            sig = f"depth:{which}:main:{','.join(exits) or '-'}" if not unw else f"depth:{which}:swallowed-exception:by={unw_by or 'C-level'}"
             return dict(verdict=VIOLATION, sig=sig, detail=f"program={text!r} via execute_vyxal: depths {d} != {base}",
                         log=log, steps=steps, cov=sorted(cov), hist=self.hist(case, text))
         return dict(verdict=OK, sig="", log=log, steps=steps, cov=sorted(cov), hist=self.hist(case, text),
